@@ -610,3 +610,45 @@ def _jsonable(x):
     if isinstance(x, (list, tuple, set, frozenset)):
         return [_jsonable(v) for v in x]
     return repr(x)
+
+
+# ---------------------------------------------------------------------------
+_MODULE_SNAPSHOTS = {}
+
+
+def pristine_globals(mod):
+    """Put the mutable module-level containers of ``mod`` (dict / list / set
+    globals: memo tables, caches) back to what they were when this function
+    first saw the module, and drop container globals that appeared since.
+    Called at the start of a path so that state written by an earlier path -
+    possibly holding symbolic values of that path - cannot leak into this one.
+    Much cheaper than importlib.reload (no re-execution of the module)."""
+    import copy
+    with NoTracing():
+        key = mod.__name__
+        snap = _MODULE_SNAPSHOTS.get(key)
+        if snap is None or snap[0] is not mod:
+            cont = {}
+            for k, v in vars(mod).items():
+                if type(v) in (dict, list, set) and not k.startswith('__'):
+                    try:
+                        cont[k] = copy.deepcopy(v)
+                    except Exception:       # noqa
+                        pass
+            _MODULE_SNAPSHOTS[key] = (mod, cont)
+            return
+        _m, cont = snap
+        for k, v in list(vars(mod).items()):
+            if type(v) in (dict, list, set) and not k.startswith('__'):
+                if k in cont:
+                    try:
+                        fresh = copy.deepcopy(cont[k])
+                    except Exception:   # noqa
+                        continue
+                    if type(v) is list:
+                        v[:] = fresh
+                    else:
+                        v.clear()
+                        v.update(fresh)
+                else:
+                    v.clear()
